@@ -39,6 +39,20 @@ def _worker(args):
     except UnitTimeout:
         r = runner.new_result(unit)
         r['inconclusive'].append('%s: unit time limit %ds exceeded (never a pass)' % (unit.name, limit))
+        # the symbolic run did not finish (a change can make the symbolic execution diverge, e.g. a
+        # loop whose exit test became symbolic): still give the float oracle a chance to show a
+        # concrete failing input
+        try:
+            import random
+            import zlib
+            from symx import sym as S
+            S.set_ctx(None)
+            signal.alarm(60)
+            v = runner.numeric_confirm(unit, random.Random(zlib.crc32(unit.name.encode()) ^ seed))
+            if v is not None:
+                r['violations'].append(v)
+        except BaseException:
+            pass
         return r
     except MemoryError:
         r = runner.new_result(unit)
